@@ -1,4 +1,5 @@
 //! Bounded stand-in / failing-input search for unit U2 (slot table) — NOT a proof.
+//! functions: Slot::fresh Slot::named Slot::numeric
 //! Bound: every sequence of at most 2 operations (3 over a 10-operation subset, 4 over a 6-operation subset) over {fresh, numeric(k) for k in {0,7}, named(n) for 15 names
 //! (small/large numerals, f<number> forms around the counter and around the 2^30 boundary, ordinary names,
 //! leading zeros)}, each sequence in a fresh thread (the table is thread-local).  The fresh counter is assumed to have
